@@ -673,7 +673,9 @@ Proof.
         assert (A : iqt_loop None ((0 + 1, nm) :: r2) = Accept).
         { apply iqt_loop_accept. cbn [chain_ok]. split; [exact SN|split; [exact I|exact CN]]. }
         simpl lastp. rewrite A.
-        unfold validate in HV. rewrite HA in HV. destruct (max_list ids) as [d|]; [|discriminate].
+        unfold validate in HV. rewrite HA in HV. destruct ids as [|i r]; [discriminate|].
+        destruct (ids_exist (delete_tm t 0) (i :: r)); [|eexists; reflexivity].
+        cbn [max_list].
         unfold deviationVerdict, matrixBoundingBox, delete_tm, set_matrices. simpl t_matrices.
         rewrite find_tm_filter. eexists; reflexivity.
       * exfalso. apply in_sorted_iff in Hp. rewrite ES in Hp. simpl in Hp. destruct Hp as [Hp|Hp].
@@ -685,12 +687,17 @@ Qed.
 
 (** ** What acceptance by the composite validation adds *)
 Lemma validate_sound_lemma : forall t ids, validate t ids = Accept ->
-  isQuadTree t = Accept /\ ids <> [] /\ exists root, find_tm 0 (t_matrices t) = Some root.
+  isQuadTree t = Accept /\ ids <> [] /\
+  (forall i, In i ids -> exists m, find_tm i (t_matrices t) = Some m) /\
+  exists root, find_tm 0 (t_matrices t) = Some root.
 Proof.
   intros t ids H. split; [eapply validate_accept_quad; eauto|].
   unfold validate in H. destruct (isQuadTree t); try discriminate.
-  destruct ids as [|i r]; [simpl in H; discriminate|]. split; [discriminate|].
-  simpl in H. unfold deviationVerdict in H.
-  destruct (matrixBoundingBox t 0); try discriminate.
-  destruct (find_tm 0 (t_matrices t)) as [root|]; [eauto|discriminate].
+  destruct ids as [|i0 r]; [discriminate|]. split; [discriminate|].
+  destruct (ids_exist t (i0 :: r)) eqn:EI; [|discriminate]. split.
+  - intros i Hi. unfold ids_exist in EI. rewrite forallb_forall in EI. specialize (EI i Hi).
+    destruct (find_tm i (t_matrices t)) as [m|]; [eauto|discriminate].
+  - cbn [max_list] in H. unfold deviationVerdict in H.
+    destruct (matrixBoundingBox t 0); try discriminate.
+    destruct (find_tm 0 (t_matrices t)) as [root|]; [eauto|discriminate].
 Qed.
